@@ -195,3 +195,13 @@ def staged(g):
     h = json.loads(json.dumps(g))
     h['feat'] = list(h.get('feat', [])) + ['staged_build']
     return h
+
+
+def cached_walk_rejoin_example():
+    """C1@1 {2,3,4}, 2 -> 6, 3 -> 5 -> 6, 3 -> 7 -> 6, 4 -> 7, C2@6 {8,9}: node 6 is reached through a cached answer and
+    again through a second branch of the same walk (the witness of a repaired defect of the confirmed-edge cache)."""
+    g = empty(9)
+    g['ch'] = [{'origin': 1, 'opts': [2, 3, 4]}, {'origin': 6, 'opts': [8, 9]}]
+    g['der'] = sorted([[2, 6], [3, 5], [5, 6], [3, 7], [7, 6], [4, 7]])
+    g['feat'] = ['cached_walk_rejoin']
+    return g
